@@ -28,8 +28,8 @@ from harness import core, tlc  # noqa: E402
 KEEP = Path("/tmp/verif_clausecov_traces")
 CHECKS = ["C01", "C03", "C04", "C05", "C06", "C07", "C08", "C09", "C10", "C11", "C12", "C13", "C14", "C15", "C16", "C17", "C18", "C19", "C20",
           "C02", "G01", "G02", "G03", "G04", "G06"]
-MAX_SCN_PER_KIND = 3
-MAX_LEAVES_PER_SCN = 160
+MAX_SCN_PER_KIND = 5
+MAX_LEAVES_PER_SCN = 240
 
 
 def collect():
@@ -146,7 +146,9 @@ def corrupt_all():
             events = [json.loads(x) for x in open(f)]
             for scn in scenarios(events):
                 sig = (pid,) + tuple(sorted({e["ev"] for e in scn}))
-                if len(chosen[sig]) < MAX_SCN_PER_KIND and sum(len(json.dumps(e)) for e in scn) < 60000:
+                if sum(len(json.dumps(e)) for e in scn) >= 60000:
+                    scn = scn[:260]   # one very long history (C18): its first events (references, then the first executions)
+                if len(chosen[sig]) < MAX_SCN_PER_KIND and sum(len(json.dumps(e)) for e in scn) < 400000:
                     chosen[sig].append(scn)
         batch = []
         for sig, scns in chosen.items():
